@@ -23,11 +23,13 @@ import (
 	"go/types"
 	"os"
 	"path/filepath"
+	"runtime"
 	"sort"
 	"strings"
 )
 
 type target struct {
+	std   bool     // dir is relative to GOROOT/src (the installed toolchain's standard library) instead of the repository
 	dir   string   // package directory relative to the repository root
 	files []string // files to parse (the whole package is not needed: only these are type-checked)
 	funcs []string // functions (or Recv.Method) to translate, in dependency order
@@ -42,6 +44,9 @@ var targets = []target{
 		out: "Parser"},
 	{dir: ".", files: []string{"message.go", "replay.go"}, funcs: []string{"isSingleLine", "topicsIntersect",
 		"queue.enqueue", "queue.dequeue", "queue.resize"}, out: "Root"},
+	// bufio.Scanner as shipped with the toolchain the harness is built with: what go-sse's parser reads through
+	{std: true, dir: "bufio", files: []string{"scan.go", "bufio.go"},
+		funcs: []string{"Scanner.setErr", "Scanner.advance", "Scanner.Err", "Scanner.Scan"}, out: "Bufio"},
 	{dir: ".", files: []string{"message.go", "message_fields.go"}, funcs: []string{"newMessageField", "messageField.IsSet",
 		"messageField.String", "messageField.UnmarshalText", "NewID", "NewType",
 		"Message.appendText", "Message.AppendData", "Message.AppendComment"}, out: "Fields"},
@@ -74,6 +79,7 @@ type tr struct {
 	aux            *em    // loop bodies of the current function, emitted before it
 	fname          string // Lean name of the current function
 	nloop          int
+	njoin          int
 }
 
 func (t *tr) pos(n ast.Node) token.Position { return t.fset.Position(n.Pos()) }
@@ -111,6 +117,12 @@ func (t *tr) leanType(ty types.Type, at ast.Node) string {
 	case *types.TypeParam:
 		return u.Obj().Name()
 	case *types.Named:
+		if u.Obj().Pkg() != nil && u.Obj().Pkg().Path() == "io" && u.Obj().Name() == "Reader" {
+			return "Reader" // the byte source of GoRT
+		}
+		if u.Obj().Pkg() != nil && u.Obj().Pkg().Path() == "bufio" && u.Obj().Name() == "SplitFunc" {
+			return "(Bytes → Bool → GoM (Int × (Option Bytes) × (Option String)))"
+		}
 		if st, ok := u.Underlying().(*types.Struct); ok {
 			name := u.Obj().Name()
 			if u.TypeParams().Len() > 0 || u.TypeArgs().Len() > 0 {
@@ -309,6 +321,14 @@ func (t *tr) expr(e *em, x ast.Expr) string {
 		if sel, ok := t.info.Selections[v]; ok && sel.Kind() == types.FieldVal {
 			return "(" + t.expr(e, v.X) + ")." + fieldName(v.Sel.Name)
 		}
+		// pkg.ErrX: an error value of another package is identified by its qualified name
+		if id, ok := v.X.(*ast.Ident); ok {
+			if _, isPkg := t.info.Uses[id].(*types.PkgName); isPkg {
+				if vv, ok := t.info.Uses[v.Sel].(*types.Var); ok && t.leanType(vv.Type(), x) == "(Option String)" {
+					return fmt.Sprintf("(some %q)", id.Name+"."+v.Sel.Name)
+				}
+			}
+		}
 		die(t.pos(x), "selector %s", types.ExprString(x))
 	case *ast.UnaryExpr:
 		switch v.Op {
@@ -373,6 +393,11 @@ func (t *tr) expr(e *em, x ast.Expr) string {
 		case token.MUL:
 			if lt == "Int" {
 				return "(" + l + " * " + r + ")"
+			}
+		case token.QUO:
+			// integer division by a positive constant (Go truncates toward zero)
+			if tv, ok := t.info.Types[v.Y]; ok && tv.Value != nil && lt == "Int" && constant.Sign(tv.Value) > 0 {
+				return "(Int.tdiv " + l + " " + r + ")"
 			}
 		}
 		die(t.pos(x), "binary %s on %s", v.Op, lt)
@@ -492,6 +517,48 @@ func (t *tr) call(e *em, v *ast.CallExpr) string {
 			}
 		}
 	}
+	if sel, ok := v.Fun.(*ast.SelectorExpr); ok {
+		if sl, ok := t.info.Selections[sel]; ok {
+			// s.split(a, b): a function-valued field
+			if sl.Kind() == types.FieldVal {
+				if _, isSig := sl.Type().Underlying().(*types.Signature); isSig {
+					args := []string{t.expr(e, sel)}
+					for _, a := range v.Args {
+						args = append(args, t.expr(e, a))
+					}
+					n := t.fresh("f")
+					e.line("let %s ← %s", n, strings.Join(args, " "))
+					return n
+				}
+			}
+			// x.Read(buf[a:b]) on an io.Reader: the bytes go into buf at a, the reader advances
+			if sl.Kind() == types.MethodVal && sel.Sel.Name == "Read" && t.leanType(t.info.Types[sel.X].Type, v) == "Reader" && len(v.Args) == 1 {
+				se, ok := v.Args[0].(*ast.SliceExpr)
+				if !ok || se.Slice3 {
+					die(t.pos(v), "Read into something other than a slice expression")
+				}
+				buf := t.expr(e, se.X)
+				lo, hi := "(0 : Int)", "(len "+buf+")"
+				if se.Low != nil {
+					lo = t.expr(e, se.Low)
+				}
+				if se.High != nil {
+					hi = t.expr(e, se.High)
+				}
+				chk := t.fresh("s")
+				e.line("let %s ← slice %s %s %s", chk, buf, lo, hi) // the slice expression itself may panic
+				rd := t.fresh("rd")
+				e.line("let %s ← readerRead %s (%s - %s)", rd, t.expr(e, sel.X), hi, lo)
+				t.assignTo(e, sel.X, rd+".2.2", false)
+				cp := t.fresh("cp")
+				e.line("let %s ← copyInto %s %s %s.1", cp, t.expr(e, se.X), lo, rd)
+				t.assignTo(e, se.X, cp+".1", false)
+				res := t.fresh("rr")
+				e.line("let %s : Int × (Option String) := ((len %s.1), %s.2.1)", res, rd, rd)
+				return res
+			}
+		}
+	}
 	// a function translated earlier (same package, or parser.X from the root package)
 	fn := name
 	if i := strings.LastIndex(fn, "."); i >= 0 {
@@ -535,27 +602,36 @@ func (t *tr) copyCall(e *em, v *ast.CallExpr) string {
 		die(t.pos(v), "copy")
 	}
 	src := t.expr(e, v.Args[1])
-	var base *ast.Ident
+	var base ast.Expr
 	off := "(0 : Int)"
+	isPlace := func(x ast.Expr) bool {
+		switch d := x.(type) {
+		case *ast.Ident:
+			o, ok := t.info.Uses[d].(*types.Var)
+			return ok && !o.IsField() && o.Parent() != t.pkg.Scope()
+		case *ast.SelectorExpr:
+			_, ok := d.X.(*ast.Ident)
+			return ok
+		}
+		return false
+	}
 	switch d := v.Args[0].(type) {
-	case *ast.Ident:
-		base = d
+	case *ast.Ident, *ast.SelectorExpr:
+		if isPlace(d) {
+			base = d
+		}
 	case *ast.SliceExpr:
-		if id, ok := d.X.(*ast.Ident); ok && d.High == nil && d.Low != nil && !d.Slice3 {
-			base = id
+		if isPlace(d.X) && d.High == nil && d.Low != nil && !d.Slice3 {
+			base = d.X
 			off = t.expr(e, d.Low)
 		}
 	}
 	if base == nil {
 		die(t.pos(v), "copy into %s", types.ExprString(v.Args[0]))
 	}
-	o, ok := t.info.Uses[base].(*types.Var)
-	if !ok || o.IsField() || o.Parent() == t.pkg.Scope() {
-		die(t.pos(v), "copy into a non-local")
-	}
 	n := t.fresh("cp")
-	e.line("let %s ← copyInto %s %s %s", n, t.nameOf(o), off, src)
-	e.line("let %s := %s.1", t.nameOf(o), n)
+	e.line("let %s ← copyInto %s %s %s", n, t.expr(e, base), off, src)
+	t.assignTo(e, base, n+".1", false)
 	return n + ".2"
 }
 
@@ -618,6 +694,7 @@ type kont struct {
 	// terminal continuations
 	loop *loopCtx // fall-through = end of a loop body: post statement, then Step.next
 	fin  bool     // fall-through = end of the function
+	join string   // fall-through = call of a join point (the continuation, emitted as a definition of its own)
 }
 
 type loopCtx struct {
@@ -670,6 +747,8 @@ func (t *tr) fall(e *em, k *kont, lc *loopCtx) {
 	switch {
 	case k == nil:
 		panic("no continuation")
+	case k.join != "":
+		e.line("%s", k.join)
 	case len(k.rest) > 0:
 		t.stmts(e, k.rest, k.up, lc)
 	case k.up != nil:
@@ -686,7 +765,9 @@ func (t *tr) fall(e *em, k *kont, lc *loopCtx) {
 		var vals []string
 		for _, r := range t.results {
 			if r.Name() == "" || r.Name() == "_" {
-				die(token.Position{}, "function may fall off its end without named results")
+				// Go's compiler has checked that this point is unreachable (e.g. after `for { … }` without break)
+				e.line("throw (Fault.panic \"unreachable: end of function\")")
+				return
 			}
 			vals = append(vals, t.nameOf(r))
 		}
@@ -759,7 +840,21 @@ func (t *tr) optExpr(e *em, x ast.Expr, wantOpt bool) string {
 	return "(some " + t.expr(e, x) + ")"
 }
 
+// slice-typed struct fields that hold nil as a value of its own
+var nilableFields = map[string]bool{"Scanner.token": true}
+
 func (t *tr) isNilableTarget(lhs ast.Expr) bool {
+	if sel, ok := lhs.(*ast.SelectorExpr); ok {
+		if s, ok := t.info.Selections[sel]; ok && s.Kind() == types.FieldVal {
+			rt := s.Recv()
+			if p, ok := rt.(*types.Pointer); ok {
+				rt = p.Elem()
+			}
+			if n, ok := rt.(*types.Named); ok {
+				return nilableFields[n.Obj().Name()+"."+sel.Sel.Name]
+			}
+		}
+	}
 	if id, ok := lhs.(*ast.Ident); ok {
 		if o, ok := t.info.ObjectOf(id).(*types.Var); ok {
 			return t.nilable[o]
@@ -967,6 +1062,7 @@ func (t *tr) stmts(e *em, list []ast.Stmt, up *kont, lc *loopCtx) {
 		if v.Init != nil {
 			t.simple(e, v.Init)
 		}
+		k = t.joinPoint(v, k, lc)
 		c := t.expr(e, v.Cond)
 		e.line("if %s then do", c)
 		e.ind++
@@ -1054,10 +1150,196 @@ func (t *tr) stmts(e *em, list []ast.Stmt, up *kont, lc *loopCtx) {
 			inner.state = append(inner.state, sv)
 		}
 		t.loop(e, inner, nil, v, v.Body, k, lc)
+	case *ast.ExprStmt:
+		if c, ok := v.X.(*ast.CallExpr); ok && types.ExprString(c.Fun) == "panic" {
+			msg := "panic"
+			if tv, ok := t.info.Types[c.Args[0]]; ok && tv.Value != nil && tv.Value.Kind() == constant.String {
+				msg = constant.StringVal(tv.Value)
+			}
+			e.line("throw (Fault.panic %q)", msg)
+			return
+		}
+		t.simple(e, s)
+		t.stmts(e, rest, up, lc)
 	default:
 		t.simple(e, s)
 		t.stmts(e, rest, up, lc)
 	}
+}
+
+// terminates: control never falls off the end of the statement list
+func terminates(list []ast.Stmt) bool {
+	if len(list) == 0 {
+		return false
+	}
+	switch v := list[len(list)-1].(type) {
+	case *ast.ReturnStmt, *ast.BranchStmt:
+		return true
+	case *ast.ExprStmt:
+		if c, ok := v.X.(*ast.CallExpr); ok && types.ExprString(c.Fun) == "panic" {
+			return true
+		}
+	case *ast.BlockStmt:
+		return terminates(v.List)
+	case *ast.IfStmt:
+		if v.Else == nil || !terminates(v.Body.List) {
+			return false
+		}
+		switch el := v.Else.(type) {
+		case *ast.BlockStmt:
+			return terminates(el.List)
+		case *ast.IfStmt:
+			return terminates([]ast.Stmt{el})
+		}
+	}
+	return false
+}
+
+// contStmts: the statements of a continuation, up to (not including) its terminal
+func contStmts(k *kont) []ast.Stmt {
+	var out []ast.Stmt
+	for ; k != nil; k = k.up {
+		out = append(out, k.rest...)
+	}
+	return out
+}
+
+func terminalOf(k *kont) *kont {
+	for k.up != nil {
+		k = k.up
+	}
+	return k
+}
+
+func hasLoop(list []ast.Stmt) bool {
+	found := false
+	for _, s := range list {
+		ast.Inspect(s, func(n ast.Node) bool {
+			switch n.(type) {
+			case *ast.ForStmt, *ast.RangeStmt:
+				found = true
+			}
+			return !found
+		})
+	}
+	return found
+}
+
+// joinPoint: when both branches of an `if` can fall through to a continuation that holds a loop, the continuation
+// becomes a definition of its own, F_jN fuel <variables it uses>, instead of being copied into every branch.
+func (t *tr) joinPoint(v *ast.IfStmt, k *kont, lc *loopCtx) *kont {
+	falls := 0
+	if !terminates(v.Body.List) {
+		falls++
+	}
+	switch el := v.Else.(type) {
+	case nil:
+		falls++
+	case *ast.BlockStmt:
+		if !terminates(el.List) {
+			falls++
+		}
+	case *ast.IfStmt:
+		if !terminates([]ast.Stmt{el}) {
+			falls++
+		}
+	}
+	cont := contStmts(k)
+	if falls < 2 || !hasLoop(cont) {
+		return k
+	}
+	// the variables the continuation uses: those of its statements that are declared before it, the terminal's
+	// (loop state and post statement / named results) and the in/out values
+	set := map[*types.Var]bool{}
+	inside := func(v *types.Var) bool {
+		for _, s := range cont {
+			if v.Pos() >= s.Pos() && v.Pos() < s.End() {
+				return true
+			}
+		}
+		return false
+	}
+	use := func(n ast.Node) {
+		ast.Inspect(n, func(m ast.Node) bool {
+			if id, ok := m.(*ast.Ident); ok {
+				if o, ok := t.info.Uses[id].(*types.Var); ok && !o.IsField() && o.Parent() != t.pkg.Scope() && o.Pkg() == t.pkg && !inside(o) {
+					set[o] = true
+				}
+			}
+			return true
+		})
+	}
+	for _, s := range cont {
+		use(s)
+	}
+	term := terminalOf(k)
+	if term.loop != nil {
+		for _, sv := range term.loop.state {
+			set[sv] = true
+		}
+		if term.loop.post != nil {
+			use(term.loop.post)
+		}
+	}
+	if term.fin {
+		for _, r := range t.results {
+			if r.Name() != "" && r.Name() != "_" {
+				set[r] = true
+			}
+		}
+	}
+	for _, io := range t.inouts {
+		set[io] = true
+	}
+	if lc != nil {
+		for _, sv := range lc.state {
+			set[sv] = true
+		}
+	}
+	var vars []*types.Var
+	for o := range set {
+		vars = append(vars, o)
+	}
+	sort.Slice(vars, func(i, j int) bool { return vars[i].Pos() < vars[j].Pos() })
+	var decl, args []string
+	for _, o := range vars {
+		ty := t.varType(o, v)
+		if _, isPtr := o.Type().(*types.Pointer); isPtr {
+			ty = t.leanType(o.Type(), v)
+		}
+		decl = append(decl, fmt.Sprintf("(%s : %s)", t.nameOf(o), ty))
+		args = append(args, t.nameOf(o))
+	}
+	if lc != nil && lc.hid != "" {
+		decl = append(decl, fmt.Sprintf("(%s : Int)", lc.hid))
+		args = append(args, lc.hid)
+	}
+	t.njoin++
+	name := fmt.Sprintf("%s_j%d", t.fname, t.njoin)
+	res := t.rho()
+	if lc != nil {
+		var tys []string
+		if lc.hid != "" {
+			tys = append(tys, "Int")
+		}
+		for _, sv := range lc.state {
+			tys = append(tys, t.varType(sv, v))
+		}
+		sigma := "Unit"
+		if len(tys) > 0 {
+			sigma = strings.Join(tys, " × ")
+		}
+		res = fmt.Sprintf("Step (%s) (%s)", sigma, res)
+	}
+	b := &em{}
+	b.line("/-- join point %d of `%s`: the code after the `if` at %s -/", t.njoin, t.fname, t.fset.Position(v.Pos()).String()[strings.LastIndex(t.fset.Position(v.Pos()).String(), "/")+1:])
+	b.line("def %s %s(fuel : Nat) %s : GoM (%s) := do", name, t.tpDecl, strings.Join(decl, " "), res)
+	b.ind++
+	t.fall(b, k, lc)
+	b.ind--
+	b.line("")
+	t.aux.sb.WriteString(b.sb.String())
+	return &kont{join: strings.TrimSpace(name + " fuel " + strings.Join(args, " "))}
 }
 
 func postList(p ast.Stmt) []ast.Stmt {
@@ -1262,6 +1544,17 @@ func (t *tr) findNilable(fd *ast.FuncDecl, sig *types.Signature) {
 					t.nilable[sig.Results().At(i)] = true
 				}
 			}
+		case *ast.BinaryExpr:
+			// a slice variable compared with nil
+			for _, pr := range [][2]ast.Expr{{v.X, v.Y}, {v.Y, v.X}} {
+				if id, ok := pr[1].(*ast.Ident); ok && id.Name == "nil" {
+					if l, ok := pr[0].(*ast.Ident); ok {
+						if o, ok := t.info.ObjectOf(l).(*types.Var); ok && isSlice(o) && !o.IsField() {
+							t.nilable[o] = true
+						}
+					}
+				}
+			}
 		case *ast.AssignStmt:
 			for i, r := range v.Rhs {
 				if id, ok := r.(*ast.Ident); ok && id.Name == "nil" && i < len(v.Lhs) {
@@ -1282,7 +1575,7 @@ func (t *tr) function(out *em, fd *ast.FuncDecl, leanName string) {
 	sig := obj.Type().(*types.Signature)
 	t.names = map[types.Object]string{}
 	t.used = map[string]int{"fuel": 1}
-	t.fname, t.nloop, t.aux = leanName, 0, &em{}
+	t.fname, t.nloop, t.njoin, t.aux = leanName, 0, 0, &em{}
 	dest := out
 	out = &em{}
 	defer func(body *em) {
@@ -1354,11 +1647,21 @@ func (t *tr) structDecl(out *em, name string, st *types.Struct) {
 		return
 	}
 	out.line("structure %s where", name)
+	fn := false
 	for i := 0; i < st.NumFields(); i++ {
 		f := st.Field(i)
-		out.line("  %s : %s", fieldName(f.Name()), t.leanType(f.Type(), nil))
+		ty := t.leanType(f.Type(), nil)
+		if nilableFields[name+"."+f.Name()] {
+			ty = "(Option " + ty + ")"
+		}
+		if strings.Contains(ty, "→") {
+			fn = true
+		}
+		out.line("  %s : %s", fieldName(f.Name()), ty)
 	}
-	out.line("deriving DecidableEq, Repr")
+	if !fn {
+		out.line("deriving DecidableEq, Repr")
+	}
 	out.line("")
 }
 
@@ -1393,7 +1696,11 @@ func main() {
 		fset := token.NewFileSet()
 		var files []*ast.File
 		for _, f := range tg.files {
-			af, err := parser.ParseFile(fset, filepath.Join(repo, tg.dir, f), nil, parser.SkipObjectResolution)
+			base := repo
+			if tg.std {
+				base = filepath.Join(runtime.GOROOT(), "src")
+			}
+			af, err := parser.ParseFile(fset, filepath.Join(base, tg.dir, f), nil, parser.SkipObjectResolution)
 			if err != nil {
 				fmt.Fprintln(os.Stderr, "translate:", err)
 				os.Exit(3)
